@@ -654,6 +654,13 @@ func (e *Exec) guardAccess(f *frame, st *State, a *Addr, write bool, ins ssa.Ins
 		what = strings.TrimPrefix(a.Obj, "glob.")
 	}
 	if g == nil {
+		// inventory default: a map held by a field of a repository type or by a package-level
+		// variable that has no declaration is treated as frozen — written only while its owner is
+		// still local to the call (a shared map written without a declared lock is exactly the
+		// runtime-fatal case of C16)
+		if _, isMap := a.Ty.Go.Underlying().(*types.Map); isMap && (obj == "" || strings.HasPrefix(what, "internal_") || strings.HasPrefix(what, "cmd_")) && what != "" {
+			return &GuardTag{Lock: "", Obj: obj, What: what + "(undeclared)"}
+		}
 		return nil
 	}
 	local := "false"
@@ -678,6 +685,8 @@ func (e *Exec) guardAccess(f *frame, st *State, a *Addr, write bool, ins ssa.Ins
 	kind := "read"
 	if write {
 		kind = "write"
+	} else {
+		held = or(held, e.rheldTerm(st, lock.T)) // a read lock is enough to read
 	}
 	e.oblig(st, "guard", what+"."+kind, or(local, held), "access to a guarded location while its lock is held (or the object is still local)", e.position(ins.Pos()))
 	if _, isMap := a.Ty.Go.Underlying().(*types.Map); isMap {
@@ -703,10 +712,18 @@ func (e *Exec) guardMapUse(f *frame, st *State, m Val, write bool, ins ssa.Instr
 		return
 	}
 	kind := "mapread"
+	heldT := e.heldTerm(st, m.Guard.Lock)
 	if write {
 		kind = "mapwrite"
+	} else {
+		heldT = or(heldT, e.rheldTerm(st, m.Guard.Lock))
 	}
-	e.oblig(st, "guard", m.Guard.What+"."+kind, or(local, e.heldTerm(st, m.Guard.Lock)), "operation on a guarded map while its lock is held", e.position(ins.Pos()))
+	e.oblig(st, "guard", m.Guard.What+"."+kind, or(local, heldT), "operation on a guarded map while its lock is held", e.position(ins.Pos()))
+}
+
+func (e *Exec) rheldTerm(st *State, lock string) string {
+	e.regHeap("G.$rheld", "(Array Int Bool)")
+	return app("select", e.get(st, "G.$rheld"), lock)
 }
 
 func (e *Exec) heldTerm(st *State, lock string) string {
